@@ -133,6 +133,21 @@ class Zones:
         return ";".join(parts)
 
 
+def abbrev_table(ztok):
+    """what timestamp.support_abbreviations would hold for the periods of this table: abbreviation -> is_dst
+    (None when the same alphabetic abbreviation is used with and without daylight saving)"""
+    _, first, trans = parse_table(ztok)
+    tab = {}
+    for off, dst, abbr in [first] + [p for _, p in trans]:
+        if not abbr.isalpha():
+            continue
+        if abbr in tab and tab[abbr] != dst:
+            tab[abbr] = None
+        else:
+            tab.setdefault(abbr, dst)
+    return tab
+
+
 def period_token(info):
     off, dst, abbr = info
     assert abbr and not set(abbr) & set(" ;,|="), abbr
@@ -400,6 +415,12 @@ class C17(Suite):
                 yield self.rt((t * M - 400) / M, 3, key, "t")
                 yield self.rt((t * M - 400) / M, 6, key, "t") if precision_ok(t, 6) else self.rt(t - 0.5, 1, key, "t")
                 yield {"kind": "wf", "zone": key, "centre": t}
+                # default rendering (abbreviation) with timestamp._tzabbrev mapping the abbreviations of the
+                # periods around the transition to (zone, is_dst): the daylight-saving designated form
+                for o in rng.sample(offs, 3 if quick else 8):
+                    frac = rng.choice(self.FRACS)
+                    yield {"kind": "rtd", "v": ((( t + o ) * M + frac) / M).hex(), "p": rng.choice([0, 3, 3, 6]) if precision_ok(t, 6) else 3,
+                           "zone": key}
                 # localize with and without designation on the wall-clock seconds around the transition
                 for o in rng.sample(offs, 3 if quick else 8):
                     w = t + tz_info(tz, t)[0] + o
@@ -568,6 +589,14 @@ class C17(Suite):
         if k == "rt":
             mu, bias, ztok, db = self.rt_tokens(c)
             return f"ts.rt {self.FIXED} {c['p']} {mu} {bias} {c['detail']} {ztok} {db} -"
+        if k == "rtd":
+            value = float.fromhex(c["v"])
+            mu, bias = mu_bias(value)
+            ztok = ZONES.table(c["zone"], mu // M)
+            tab = abbrev_table(ztok)
+            ab = ",".join(f"{a}={c['zone']}={'-' if d is None else int(d)}" for a, d in sorted(tab.items())) or "-"
+            words = [p.split(",")[-1] for p in ztok.split(";")[1:]]
+            return f"ts.rt {self.FIXED} {c['p']} {mu} {bias} n {ztok} {db_for(words, mu // M, extra=[c['zone']])} {ab}"
         if k == "parse":
             centre = centre_of(c["text"])
             return f"ts.parse {self.FIXED} {hexs(c['text'])} {db_for(candidate_words(c['text']), centre)} -"
@@ -610,6 +639,20 @@ class C17(Suite):
             except ValueError:
                 return "reject:range"
             return text + "|" + self.parse_real(text)
+        if k == "rtd":
+            value = float.fromhex(c["v"])
+            mu, _ = mu_bias(value)
+            tab = abbrev_table(ZONES.table(c["zone"], mu // M))
+            tz = times.pytz.timezone(c["zone"])
+            timestamp._tzabbrev = {a: (tz, d, None) for a, d in tab.items()}
+            try:
+                try:
+                    text = timestamp(value).render(tzinfo=c["zone"], ms=c["p"])
+                except ValueError:
+                    return "reject:range"
+                return text + "|" + self.parse_real(text)
+            finally:
+                timestamp._tzabbrev = {}
         if k == "parse":
             return self.parse_real(c["text"])
         if k == "loc":
@@ -709,6 +752,37 @@ class C17(Suite):
                     return None
                 return f"{text!r} rejected as {res} although its wall-clock time has {n} preimage(s)"
             return f"{value!r} rendered as {text!r} which is refused ({res})"
+        if k == "rtd":
+            if out == "reject:range":
+                return "an instant within years 1..9999 cannot be rendered"
+            value = float.fromhex(c["v"])
+            x = Fraction(value) * M
+            p = c["p"]
+            q = 10 ** (6 - p)
+            text, res = out.rsplit("|", 1)
+            mu = half_even(x)
+            v = (mu - mu % M) if p == 0 else got_round(x, q)
+            ztok = ZONES.table(c["zone"], mu // M)
+            _, first, trans = parse_table(ztok)
+            pers = [(None, first)] + trans
+            per = [pr for t, pr in pers if t is None or t <= v // M][-1]
+            tab = abbrev_table(ztok)
+            flag = tab.get(per[2], "absent")
+            pre = preimages(ztok, v // M + per[0])
+            others = [pr for t, pr in pers for u in pre if u != v // M
+                      and (t is None or t <= u) and pr == [q_ for t_, q_ in pers if t_ is None or t_ <= u][-1]]
+            if flag == "absent":
+                return None                 # numeric abbreviation: names nothing
+            designated = flag is not None and flag == per[1] and all(o[1] != per[1] for o in others)
+            if res == f"ok {v}":
+                return None
+            if res.startswith("ok "):
+                if len(pre) == 1 or designated or flag is None:
+                    return f"{value!r} rendered as {text!r} parses back to {int(res[3:]) / M!r}"
+                return None                 # ambiguous between two periods with the same daylight-saving flag
+            if res == "reject:ambiguous" and flag is None and len(pre) >= 2:
+                return None
+            return f"{value!r} rendered as {text!r} which is refused ({res})"
         if k == "parse":
             if not out.startswith("ok "):
                 return None
@@ -805,6 +879,9 @@ class C17(Suite):
             z = "utc" if c["zone"] is None else "zone"
             form = {"n": "abbr" if c["zone"] else "plain", "t": "key", "f": "numeric"}[c["detail"]]
             return f"rt:{z}:{form}:p{c['p']}:{res}"
+        if k == "rtd":
+            return "rtd:" + ("out-of-range" if out == "reject:range" else
+                             "ok" if out.rsplit("|", 1)[1].startswith("ok") else out.rsplit("|", 1)[1])
         if k in ("parse", "durp", "loc"):
             return f"{k}:" + ("ok" if out.startswith("ok") else out)
         if k == "wf":
